@@ -65,6 +65,8 @@ func genHistCase(t *rapid.T, prop string) *Case {
 			op.Pub = rapid.IntRange(0, 1).Draw(t, "pub") == 0
 		case 5, 6:
 			op.Doc = rapid.IntRange(0, 2200).Draw(t, "doc")
+			op.Field = rapid.IntRange(0, 7).Draw(t, "field")
+			op.Term = rapid.IntRange(0, 3).Draw(t, "term")
 		}
 		if op.Kind == 1 || op.Kind == 3 {
 			k := rapid.IntRange(0, 6).Draw(t, "ndocs")
@@ -273,7 +275,13 @@ func runHistCase(c *Case, env *Env) *Result {
 				}
 			case 6:
 				if cnt > 0 {
-					dvr, err := is.seg.DocumentValueReader(is.fields)
+					// the field list another segment handed out, passed on as is
+					req := is.fields
+					if op.Term%2 == 1 {
+						req = pool[op.Field%len(pool)].seg.Fields()
+						res.probe("docvalue-reader-on-another-segments-Fields()")
+					}
+					dvr, err := is.seg.DocumentValueReader(req)
 					if err != nil {
 						f = apiFail("C15", "immutability", "DocumentValueReader", nil, err)
 						return
